@@ -5,6 +5,7 @@
 //! usage: r2c <repo root> <functions.txt> <output dir (coq/Gen)>
 #![allow(dead_code, unused_mut)]
 mod calls;
+mod effects;
 mod expr;
 mod stmt;
 mod tr;
@@ -127,7 +128,7 @@ fn find_fn<'s>(src: &'s Source, self_ty: Option<&str>, trait_spec: Option<&str>,
                 }
             }
             (Item::Impl(im), Some(st)) => {
-                if is_test_cfg(&im.attrs) || type_last_ident(&im.self_ty).as_deref() != Some(st.split('<').next().unwrap()) {
+                if is_test_cfg(&im.attrs) || type_last_ident(&im.self_ty).as_deref() != Some(st.split('<').next().unwrap().rsplit('.').next().unwrap()) {
                     continue;
                 }
                 let ok = match (&im.trait_, trait_spec) {
@@ -191,6 +192,8 @@ struct Module {
 }
 
 struct Driver {
+    /// file of the declaration being processed (tie-break for type names)
+    cur_file: String,
     repo: String,
     sources: BTreeMap<String, Source>,
     tables: Tables,
@@ -200,6 +203,7 @@ struct Driver {
 
 impl Driver {
     fn load(&mut self, file: &str) -> R<()> {
+        self.cur_file = file.to_string();
         if self.sources.contains_key(file) {
             return Ok(());
         }
@@ -211,9 +215,19 @@ impl Driver {
     }
 
     fn conv(&self, t: &Type, generics: &BTreeSet<String>, self_ty: Option<&str>, extra_adt: Option<&str>) -> R<Ty> {
-        let adts = &self.tables.adts;
-        let ext = &self.tables.externs;
-        conv_ty(t, &|n| adts.contains_key(n) || Some(n) == extra_adt || ext.contains_key(n.strip_prefix("extern:").unwrap_or(n)), generics, self_ty)
+        let tabs = &self.tables;
+        let cf = self.cur_file.clone();
+        conv_ty(
+            t,
+            &|n| {
+                if Some(n) == extra_adt || extra_adt.map(|x| x.ends_with(&format!(".{}", n))).unwrap_or(false) {
+                    return Some(Ty::Adt(extra_adt.unwrap().to_string()));
+                }
+                tabs.resolve_name(n, &cf, self_ty)
+            },
+            generics,
+            self_ty,
+        )
     }
 
     /// `MajorMinor<i32>` + `impl<T> MajorMinor<T>` -> {T: i32}
@@ -251,7 +265,7 @@ impl Driver {
     fn add_struct(&mut self, file: &str, name: &str, map: &[&str], eqb: Option<String>, module: &str) -> R<()> {
         self.load(file)?;
         let src = &self.sources[file];
-        let base = name.split('<').next().unwrap();
+        let base = name.split('<').next().unwrap().rsplit('.').next().unwrap();
         let st = all_items(&src.file.items)
             .into_iter()
             .find_map(|i| if let Item::Struct(s) = i { if s.ident == base { Some(s) } else { None } } else { None })
@@ -318,7 +332,7 @@ impl Driver {
         let src = &self.sources[file];
         let en = all_items(&src.file.items)
             .into_iter()
-            .find_map(|i| if let Item::Enum(s) = i { if s.ident == name { Some(s) } else { None } } else { None })
+            .find_map(|i| if let Item::Enum(s) = i { if s.ident == name.rsplit('.').next().unwrap() { Some(s) } else { None } } else { None })
             .ok_or_else(|| format!("enum `{}` not found in {}", name, file))?;
         let gens = Self::generics_of(&en.generics);
         let generated = map.is_empty();
@@ -344,20 +358,22 @@ impl Driver {
                 fields.push((f.ident.as_ref().map(|x| x.to_string()), ty));
             }
             let ctor = if generated {
-                format!("{}_{}", name, vn)
+                format!("{}_{}", sanitize(name), vn)
             } else {
                 ctor_map.get(&vn).cloned().ok_or_else(|| format!("enum `{}`: variant `{}` has no mapping (the enum changed?)", name, vn))?
             };
             variants.push(VariantInfo { name: vn, ctor, fields });
         }
+        let eqb = if eqb.is_none() && variants.iter().all(|v| v.fields.is_empty()) { Some(format!("{}_eqb", sanitize(name))) } else { eqb };
+        let auto_eqb = eqb.as_deref() == Some(format!("{}_eqb", sanitize(name)).as_str());
         let line = en.span().start().line;
         let info = EnumInfo {
             name: name.to_string(),
-            coq_ty: if generated { name.to_string() } else { map[0].to_string() },
+            coq_ty: if generated { sanitize(name) } else { map[0].to_string() },
             variants,
             eqb,
             generated,
-            module: module.to_string(),
+            module: if auto_eqb { format!("auto-eqb:{}", module) } else { module.to_string() },
             origin: format!("{}:{}", file, line),
         };
         self.tables.adts.insert(name.to_string(), Adt::Enum(info));
@@ -416,6 +432,7 @@ impl Driver {
         }
         let mut self_kind = SelfKind::None;
         let mut params = vec![];
+        let mut mut_params: Vec<bool> = vec![];
         for a in ff.sig.inputs.iter() {
             match a {
                 FnArg::Receiver(r) => {
@@ -435,8 +452,13 @@ impl Driver {
                         Pat::Wild(_) => "_".to_string(),
                         _ => return Err(format!("{} `{}`: parameter pattern is not an identifier", file, spec)),
                     };
-                    let ty = self.conv(&pt.ty, &gens, st, None).map_err(|e| format!("{} `{}`: parameter `{}`: {}", file, spec, n, e))?;
+                    let (pty, is_mut): (&Type, bool) = match &*pt.ty {
+                        Type::Reference(r) if r.mutability.is_some() => (&*r.elem, true),
+                        t => (t, false),
+                    };
+                    let ty = self.conv(pty, &gens, st, None).map_err(|e| format!("{} `{}`: parameter `{}`: {}", file, spec, n, e))?;
                     params.push((n, subst_ty(&ty, &isub)));
+                    mut_params.push(is_mut);
                 }
             }
         }
@@ -445,16 +467,23 @@ impl Driver {
             ReturnType::Type(_, t) => {
                 // `Self::Output` of operator impls
                 let so = tokens_nospace(&**t);
-                if so == "Self::Output" {
+                let inner_opt = so.starts_with("Option<Self::") && so.ends_with('>');
+                let assoc_name: Option<String> = if inner_opt { Some(so["Option<Self::".len()..so.len() - 1].to_string()) } else { so.strip_prefix("Self::").map(|x| x.to_string()) };
+                if let Some(an) = assoc_name.filter(|a| a.chars().all(|c| c.is_alphanumeric() || c == '_')) {
                     let mut found = None;
                     for ii in ff.impl_items.unwrap_or(&[]) {
                         if let ImplItem::Type(it) = ii {
-                            if it.ident == "Output" {
+                            if it.ident == an.as_str() {
                                 found = Some(self.conv(&it.ty, &gens, st, None)?);
                             }
                         }
                     }
-                    found.ok_or_else(|| format!("{} `{}`: Self::Output not found in the impl", file, spec))?
+                    let f = found.ok_or_else(|| format!("{} `{}`: associated type Self::{} not found in the impl", file, spec, an))?;
+                    if inner_opt {
+                        Ty::Option(Box::new(f))
+                    } else {
+                        f
+                    }
                 } else {
                     self.conv(t, &gens, st, None).map_err(|e| format!("{} `{}`: return type: {}", file, spec, e))?
                 }
@@ -482,7 +511,7 @@ impl Driver {
         if self.tables.fns.iter().any(|f| f.coq == coq) {
             return Err(format!("{} `{}`: Coq name `{}` is already used (give `as=`)", file, spec, coq));
         }
-        let info = FnInfo { key: spec.to_string(), name: name.clone(), coq, self_ty: self_ty.clone(), trait_name: trait_spec.clone(), self_kind, const_generics, assoc_params, params, ret };
+        let info = FnInfo { key: spec.to_string(), name: name.clone(), coq, self_ty: self_ty.clone(), trait_name: trait_spec.clone(), self_kind, const_generics, assoc_params, params, mut_params, ret, fuel: false };
         self.tables.fns.push(info);
         let idx = self.tables.fns.len() - 1;
         self.jobs.push(FnJob { file: file.to_string(), self_ty, trait_spec, name, info_idx: idx, module });
@@ -520,7 +549,7 @@ impl Driver {
         }
         let (ty, ex, l1, l2) = found[0];
         let ty = self.conv(ty, &BTreeSet::new(), st.as_deref(), None)?;
-        let mut tr = Tr { t: &self.tables, self_ty: st.clone(), ret_ty: ty.clone(), mut_self: false, counter: BTreeMap::new(), mut_methods: BTreeSet::new(), generic_tys: BTreeSet::new(), subst: BTreeMap::new() };
+        let mut tr = Tr { t: &self.tables, self_ty: st.clone(), ret_ty: ty.clone(), mut_self: false, counter: BTreeMap::new(), mut_methods: BTreeSet::new(), generic_tys: BTreeSet::new(), subst: BTreeMap::new(), fuel: false, needs_fuel: false, fuel_var: String::new(), fuel_names: BTreeSet::new(), mutarg_names: BTreeSet::new(), mut_params: vec![], ret_coq: String::new(), loops: vec![], fn_assigned: BTreeSet::new(), cur_file: file.to_string(), fn_coq: String::new(), loop_counter: 0, aux_defs: vec![] };
         let v = tr.pure(ex, &Env::default(), Some(&ty)).map_err(|e| format!("{} const `{}`: {}", file, spec, e))?;
         join(&v.ty, &ty).map_err(|e| format!("{} const `{}`: {}", file, spec, e))?;
         let coq = format!("src_{}", spec.replace("::", "_"));
@@ -534,15 +563,42 @@ impl Driver {
         Ok(())
     }
 
-    fn translate_fn(&self, job: &FnJob) -> R<String> {
+    /// returns the generated text and whether the function turned out to need fuel
+    fn translate_fn(&self, job: &FnJob) -> R<(String, bool)> {
+        match self.translate_fn_with(job, self.tables.fns[job.info_idx].fuel) {
+            Ok(s) => Ok((s, self.tables.fns[job.info_idx].fuel)),
+            Err((e, needs_fuel)) => {
+                if needs_fuel && !self.tables.fns[job.info_idx].fuel {
+                    self.translate_fn_with(job, true).map(|s| (s, true)).map_err(|(e, _)| e)
+                } else {
+                    Err(e)
+                }
+            }
+        }
+    }
+
+    fn translate_fn_with(&self, job: &FnJob, fuel: bool) -> std::result::Result<String, (String, bool)> {
+        let nf = |e: String| (e, false);
         let src = &self.sources[&job.file];
-        let ff = find_fn(src, job.self_ty.as_deref(), job.trait_spec.as_deref(), &job.name)?;
+        let ff = find_fn(src, job.self_ty.as_deref(), job.trait_spec.as_deref(), &job.name).map_err(nf)?;
         let info = &self.tables.fns[job.info_idx];
         let mut gens = Self::generics_of(&ff.sig.generics);
         if let Some(g) = ff.impl_generics {
             gens.extend(Self::generics_of(g));
         }
         let mut_methods: BTreeSet<String> = self.tables.fns.iter().filter(|f| f.self_kind == SelfKind::Mut).map(|f| f.name.clone()).collect();
+        let fuel_names: BTreeSet<String> = self.tables.fns.iter().filter(|f| f.fuel).map(|f| f.name.clone()).collect();
+        let mutarg_names: BTreeSet<String> = self.tables.fns.iter().filter(|f| f.has_mut_params()).map(|f| f.name.clone()).collect();
+        let rtys = info.result_tys();
+        let mut rcs = vec![];
+        for t in rtys.iter() {
+            rcs.push(self.tables.coq_ty(t).map_err(nf)?);
+        }
+        let ret_coq = match rcs.len() {
+            0 => "unit".to_string(),
+            1 => rcs[0].clone(),
+            _ => format!("({})", rcs.join(" * ")),
+        };
         let mut tr = Tr {
             t: &self.tables,
             self_ty: job.self_ty.clone(),
@@ -551,55 +607,74 @@ impl Driver {
             counter: BTreeMap::new(),
             mut_methods,
             generic_tys: gens,
-            subst: self.instance_subst(job.self_ty.as_deref(), ff.impl_self)?,
+            subst: self.instance_subst(job.self_ty.as_deref(), ff.impl_self).map_err(nf)?,
+            fuel,
+            needs_fuel: false,
+            fuel_var: "fuel'".into(),
+            fuel_names,
+            mutarg_names,
+            mut_params: info.params.iter().zip(info.mut_params.iter()).filter(|(_, m)| **m).map(|((n, _), _)| n.clone()).collect(),
+            ret_coq: ret_coq.clone(),
+            loops: vec![],
+            fn_assigned: BTreeSet::new(),
+            cur_file: job.file.clone(),
+            fn_coq: info.coq.clone(),
+            loop_counter: 0,
+            aux_defs: vec![],
         };
+        tr.fn_assigned = tr.effects_stmts(&ff.block.stmts).assigned;
         let mut env = Env::default();
         let mut binders = String::new();
+        if fuel {
+            tr.counter.insert("fuel".into(), 1);
+            binders.push_str(" (fuel' : nat)");
+        }
         for (n, t) in info.const_generics.iter() {
             let c = tr.fresh(n);
-            write!(binders, " ({} : {})", c, self.tables.coq_ty(t)?).unwrap();
-            env.push(n, Var { coq: c, ty: t.clone() });
+            write!(binders, " ({} : {})", c, self.tables.coq_ty(t).map_err(nf)?).unwrap();
+            env.push(n, var(c, t.clone()));
         }
         for (n, t) in info.assoc_params.iter() {
             let c = tr.fresh(&n.replace("::", "_"));
-            write!(binders, " ({} : {})", c, self.tables.coq_ty(t)?).unwrap();
-            env.push(n, Var { coq: c, ty: t.clone() });
+            write!(binders, " ({} : {})", c, self.tables.coq_ty(t).map_err(nf)?).unwrap();
+            env.push(n, var(c, t.clone()));
         }
         if info.self_kind != SelfKind::None {
             let t = Ty::Adt(job.self_ty.clone().unwrap());
             let c = tr.fresh("self");
-            write!(binders, " ({} : {})", c, self.tables.coq_ty(&t)?).unwrap();
-            env.push("self", Var { coq: c, ty: t });
+            write!(binders, " ({} : {})", c, self.tables.coq_ty(&t).map_err(nf)?).unwrap();
+            env.push("self", var(c, t));
         }
         for (n, t) in info.params.iter() {
             if n == "_" {
                 let c = tr.fresh("unused");
-                write!(binders, " ({} : {})", c, self.tables.coq_ty(t)?).unwrap();
+                write!(binders, " ({} : {})", c, self.tables.coq_ty(t).map_err(nf)?).unwrap();
                 continue;
             }
             let c = tr.fresh(n);
-            write!(binders, " ({} : {})", c, self.tables.coq_ty(t)?).unwrap();
-            env.push(n, Var { coq: c, ty: t.clone() });
+            write!(binders, " ({} : {})", c, self.tables.coq_ty(t).map_err(nf)?).unwrap();
+            env.push(n, var(c, t.clone()));
         }
         let ret = info.ret.clone();
         let env_top = env.clone();
-        let body = tr.stmts_k(&ff.block.stmts, &env, Some(&ret), &|tr, v| tr.finish(v, &env_top))?;
-        let ret_coq = if info.self_kind == SelfKind::Mut {
-            let st = self.tables.coq_ty(&Ty::Adt(job.self_ty.clone().unwrap()))?;
-            if info.ret == Ty::Unit {
-                st
-            } else {
-                format!("({} * {})", st, self.tables.coq_ty(&info.ret)?)
-            }
-        } else {
-            self.tables.coq_ty(&info.ret)?
+        let body = match tr.stmts_k(&ff.block.stmts, &env, Some(&ret), &|tr, v| tr.finish(v, &env_top)) {
+            Ok(b) => b,
+            Err(e) => return Err((e, tr.needs_fuel)),
         };
         let l1 = ff.sig.span().start().line;
         let l2 = ff.block.span().end().line;
         let text: String = src.text.lines().skip(l1 - 1).take(l2 - l1 + 1).collect::<Vec<_>>().join("\n");
         let mut out = String::new();
         writeln!(out, "(* {}:{}-{}  {}  hash:{:016x} *)", job.file, l1, l2, info.key, fnv1a(&text)).unwrap();
-        writeln!(out, "Definition {}{} : {} :=", info.coq, binders, ret_coq).unwrap();
+        if fuel {
+            writeln!(out, "(* contains a loop (or calls a function that does): explicit fuel, None = fuel exhausted *)").unwrap();
+        }
+        for a in tr.aux_defs.iter() {
+            out.push_str(&indent0(a));
+            out.push('\n');
+        }
+        let full_ret = if fuel { format!("option {}", ret_coq) } else { ret_coq };
+        writeln!(out, "Definition {}{} : {} :=", info.coq, binders, full_ret).unwrap();
         out.push_str(&indent(&body));
         out.push_str(".\n");
         writeln!(out, "#[global] Hint Unfold {} : src.", info.coq).unwrap();
@@ -633,10 +708,29 @@ impl Driver {
                     }
                     out.push_str(".\n");
                 }
+                if e.module.starts_with("auto-eqb:") {
+                    // structural equality of a field-less enum (derive(PartialEq))
+                    let n = e.eqb.clone().unwrap();
+                    writeln!(out, "Definition {} (a b : {}) : bool :=\n  match a, b with", n, e.coq_ty).unwrap();
+                    for v in e.variants.iter() {
+                        writeln!(out, "  | {}, {} => true", v.ctor, v.ctor).unwrap();
+                    }
+                    if e.variants.len() > 1 {
+                        writeln!(out, "  | _, _ => false").unwrap();
+                    }
+                    writeln!(out, "  end.").unwrap();
+                }
             }
         }
         Ok(out)
     }
+}
+
+fn indent0(body: &str) -> String {
+    let mut lines = body.lines();
+    let first = lines.next().unwrap_or("").to_string();
+    let rest: Vec<&str> = lines.collect();
+    format!("{}\n{}", first, indent(&rest.join("\n")))
 }
 
 /// indentation by nesting depth of let/match/if lines (purely cosmetic)
@@ -690,7 +784,7 @@ fn main() {
     }
     let cfg = std::fs::read_to_string(&args[2]).expect("cannot read configuration");
     let outdir = Path::new(&args[3]);
-    let mut d = Driver { repo: args[1].clone(), sources: BTreeMap::new(), tables: Tables::default(), modules: vec![], jobs: vec![] };
+    let mut d = Driver { cur_file: String::new(), repo: args[1].clone(), sources: BTreeMap::new(), tables: Tables::default(), modules: vec![], jobs: vec![] };
     // core::cmp::Ordering = Coq's comparison
     d.tables.adts.insert(
         "Ordering".into(),
@@ -802,19 +896,32 @@ fn main() {
     for mi in 0..d.modules.len() {
         let mut body = String::new();
         let mut errors = d.modules[mi].errors.clone();
-        for decl in d.modules[mi].decls.iter() {
-            match decl {
+        for di in 0..d.modules[mi].decls.len() {
+            enum Out {
+                Text(String),
+                Err(String),
+                Fn(String, usize, bool),
+            }
+            let out = match &d.modules[mi].decls[di] {
                 Decl::Adt(n) => match d.emit_adt(n) {
-                    Ok(s) => body.push_str(&s),
-                    Err(e) => errors.push(e),
+                    Ok(s) => Out::Text(s),
+                    Err(e) => Out::Err(e),
                 },
-                Decl::Const(_, _, text) => body.push_str(text),
+                Decl::Const(_, _, text) => Out::Text(text.clone()),
                 Decl::Fn(j) => {
                     let job = &d.jobs[*j];
                     match d.translate_fn(job) {
-                        Ok(s) => body.push_str(&s),
-                        Err(e) => errors.push(format!("{} `{}`: {}", job.file, d.tables.fns[job.info_idx].key, e)),
+                        Ok((s, fuel)) => Out::Fn(s, job.info_idx, fuel),
+                        Err(e) => Out::Err(format!("{} `{}`: {}", job.file, d.tables.fns[job.info_idx].key, e)),
                     }
+                }
+            };
+            match out {
+                Out::Text(s) => body.push_str(&s),
+                Out::Err(e) => errors.push(e),
+                Out::Fn(s, idx, fuel) => {
+                    body.push_str(&s);
+                    d.tables.fns[idx].fuel = fuel;
                 }
             }
             body.push('\n');
